@@ -402,7 +402,7 @@ class C10(Check):
                     late_op = None
                 elif op[0] not in ('parse_keep', 'resume_kept'):
                     want = self._expected(cfg, e, op, fresh_holder)
-                results_log.append([ti, k, jhash(val)])
+                results_log.append([ti, k, jhash(_for_digest(val))])
                 if val != want:
                     pred = 'concurrent' if plan['mode'] == 'threads' else ('after-abnormal' if abnormal_before else 'after-normal')
                     out.violation = Violation('outcome-differs(%s,%s)' % (op[0], pred), config=cfg, task=ti, op_index=k, op=op, got=val, want=want)
@@ -439,6 +439,9 @@ class C10(Check):
             out.nontrivial = checked_after_abnormal > 0
         out.case_hash = jhash([plan, sch.decisions if plan['mode'] == 'threads' else None])
         out.digest = jhash([results_log, sch.decisions, out.violation])
+        # under another string hash seed lark executes another number of lines while it BUILDS a parser (set iteration orders), so a
+        # schedule that pre-empts inside a construction differs; what the calls returned may not
+        out.portable_digest = jhash([results_log, out.violation])
         out.extra_hashes = {'interleavings': [sch.interleave_hash] if sch.nontrivial_switches else [],
                             'preemption_sites': [jhash(list(s)) for s in sch.sites]}
         return out
@@ -506,6 +509,14 @@ class C10(Check):
             d = json.load(open(path))
             out.append((os.path.basename(path)[:-5], d['plan'], d.get('decisions') or None))
         return out
+
+
+def _for_digest(val):
+    """the event-log digest is compared ACROSS hash seeds by the determinism self-test: the key order of choices() follows the string
+    hash seed (outside the statement, which is about one process), so it is sorted there; inside a run it is compared as it is"""
+    if isinstance(val, dict) and isinstance(val.get('trace'), list):
+        return dict(val, trace=[[t[0], t[1], sorted(t[2])] if isinstance(t, list) and len(t) == 3 and isinstance(t[2], list) else t for t in val['trace']])
+    return val
 
 
 def _abnormal(op, val):
